@@ -166,4 +166,334 @@ Section ParseTypes.
     - cbn [firstn type_alts]. subst kw. fails_compute.
     - rewrite visit_Node. subst children. cbn [omapv]. rewrite visit_kw, visit_ws, !visit_leaf, HvisI. reflexivity.
   Qed.
+
+  (** ** struct{f: T, ...} *)
+  Definition fstr (f : name * hty) : name := escape_parsable (fst f) ++ lit ": " ++ show (snd f).
+
+  Lemma join_cons2 sep x y ys : join sep (x :: y :: ys) = x ++ sep ++ join sep (y :: ys).
+  Proof. reflexivity. Qed.
+
+  Lemma join_cons sep x xs : join sep (x :: xs) = x ++ List.concat (map (fun y => sep ++ y) xs).
+  Proof.
+    revert x; induction xs as [|y ys IH]; intro x.
+    - cbn [join map List.concat]. rewrite app_nil_r. reflexivity.
+    - rewrite join_cons2, (IH y). cbn [map List.concat]. rewrite <- app_assoc. reflexivity.
+  Qed.
+
+  Lemma show_struct fs : show (HStruct fs) = lit "struct{" ++ join (lit ", ") (map fstr fs) ++ lit "}".
+  Proof.
+    cbn [Model.show]. do 2 f_equal.
+  Qed.
+
+  Lemma show_tuple ts : show (HTuple ts) = lit "tuple(" ++ join (lit ", ") (map show ts) ++ lit ")".
+  Proof.
+    cbn [Model.show]. do 2 f_equal.
+  Qed.
+
+  Lemma field_runs pre f rest :
+    pre_ok pre -> name_ok (fst f) = true -> PT (snd f) -> ok_follow rest ->
+    exists tr, RUN (R "field") (pre ++ fstr f ++ rest) (Ok (tr, rest)) /\ visit tr = Some (VF (fst f) (snd f)).
+  Proof.
+    intros Hpre Hn HT Hrest. destruct f as [n T]. cbn [fst snd] in *. unfold fstr. cbn [fst snd].
+    destruct (HT [32] rest (or_intror eq_refl) Hrest) as (trT & HrunT & HvisT).
+    set (Z := [32] ++ show T ++ rest) in *.
+    destruct (identifier_runs uni_word uni_space pre n 58 Z Hpre Hn (or_introl eq_refl)) as (trI & HrunI & HvisI).
+    pose (children := [trI; Node [] (codes ":") []; trT]).
+    exists (Node (codes "field") (List.concat (map tree_text children)) children). split.
+    - replace (pre ++ (escape_parsable n ++ lit ": " ++ show T) ++ rest) with (pre ++ escape_parsable n ++ 58 :: Z)
+        by (subst Z; cbn [lit codes app]; rewrite <- !app_assoc; reflexivity).
+      eapply runs_ref; [reflexivity|]. apply runs_seq.
+      eapply seq_cons; [exact HrunI|].
+      eapply seq_cons; [apply (lit_runs (codes ":") Z)|].
+      eapply seq_cons; [exact HrunT|]. apply seq_nil.
+    - rewrite visit_Node. subst children. cbn [omapv]. rewrite HvisI, visit_leaf, HvisT. reflexivity.
+  Qed.
+
+  Definition ftails (fs : list (name * hty)) (X : name) : name :=
+    List.concat (map (fun f => lit ", " ++ fstr f) fs) ++ X.
+
+  Lemma ftails_follow fs X' : ok_follow (ftails fs (125 :: X')).
+  Proof. destruct fs as [|f fs]; cbn; auto. Qed.
+
+  Lemma rep_fields fs X' : Forall (fun f => name_ok (fst f) = true /\ PT (snd f)) fs ->
+    forall c, exists trs,
+      rep_runs uni_word uni_space type_grammar (PSeq [L ","; R "field"]) 0 None c (ftails fs (125 :: X')) trs (125 :: X')
+      /\ omapv visit trs = Some (map (fun f => VL [VL []; VF (fst f) (snd f)]) fs).
+  Proof.
+    induction 1 as [|f fs [Hn HT] _ IH]; intro c.
+    - exists []. split; [|reflexivity]. apply rep_stop_fail; [discriminate|].
+      apply runs_seq_fail. apply seqf_here. apply runs_lit_fail. reflexivity.
+    - destruct (IH (S c)) as (trs & Hrep & Hvis).
+      destruct (field_runs [32] f (ftails fs (125 :: X')) (or_intror eq_refl) Hn HT (ftails_follow fs X')) as (trf & Hrunf & Hvisf).
+      pose (children := [Node [] (codes ",") []; trf]).
+      exists (Node [] (List.concat (map tree_text children)) children :: trs). split.
+      + unfold ftails. cbn [map List.concat]. rewrite <- app_assoc. fold (ftails fs (125 :: X')).
+        replace (lit ", " ++ fstr f) with (44 :: [32] ++ fstr f) by reflexivity. cbn [app].
+        eapply rep_step; [discriminate| |discriminate|exact Hrep].
+        apply runs_seq.
+        eapply seq_cons; [apply (lit_runs (codes ",") (32 :: fstr f ++ ftails fs (125 :: X')))|].
+        eapply seq_cons; [|apply seq_nil].
+        replace (32 :: fstr f ++ ftails fs (125 :: X')) with ([32] ++ fstr f ++ ftails fs (125 :: X')) by reflexivity.
+        exact Hrunf.
+      + cbn [omapv map]. rewrite Hvis. rewrite visit_Node. subst children. cbn [omapv]. rewrite visit_leaf, Hvisf. reflexivity.
+  Qed.
+
+  Lemma second_fields fs :
+    omapv second_of_pair (map (fun f : name * hty => VL [VL []; VF (fst f) (snd f)]) fs)
+    = Some (map (fun f => VF (fst f) (snd f)) fs).
+  Proof. induction fs as [|f fs IH]; [reflexivity|]. cbn [map omapv second_of_pair]. rewrite IH. reflexivity. Qed.
+
+  Lemma as_fields fs : omapv as_field (map (fun f : name * hty => VF (fst f) (snd f)) fs) = Some fs.
+  Proof. induction fs as [|[n t] fs IH]; [reflexivity|]. cbn [map omapv as_field fst snd]. rewrite IH. reflexivity. Qed.
+
+  (** a dict built from pairs with distinct keys is the list of pairs *)
+  Lemma dict_set_fresh k v d : ~ In k (map fst d) -> dict_set k v d = d ++ [(k, v)].
+  Proof.
+    induction d as [|[k' v'] d IH]; cbn [map fst In dict_set app]; intro H; [reflexivity|].
+    rewrite name_eqb_neq by (intro E; apply H; left; congruence). rewrite IH by tauto. reflexivity.
+  Qed.
+
+  Lemma dict_of_pairs_nodup fs : NoDup (map fst fs) -> dict_of_pairs fs = fs.
+  Proof.
+    unfold dict_of_pairs.
+    assert (H : forall acc, NoDup (map fst (acc ++ fs)) ->
+                 fold_left (fun d kv => dict_set (fst kv) (snd kv) d) fs acc = acc ++ fs).
+    { induction fs as [|[k v] fs IH]; intros acc Hnd; cbn [fold_left]; [rewrite app_nil_r; reflexivity|].
+      cbn [fst snd]. rewrite dict_set_fresh.
+      - rewrite IH; [rewrite <- app_assoc; reflexivity|]. rewrite <- app_assoc. exact Hnd.
+      - rewrite map_app in Hnd. cbn [map fst] in Hnd. apply NoDup_remove_2 in Hnd.
+        intro Hin. apply Hnd. apply in_or_app. left. exact Hin. }
+    intro Hnd. apply (H []). exact Hnd.
+  Qed.
+
+  Lemma vn_generic txt vc : visit_node [] txt vc = Some (VL vc).
+  Proof. reflexivity. Qed.
+  Lemma vn_fields txt first rest :
+    visit_node (codes "fields") txt [first; VL rest]
+    = match omapv second_of_pair rest with Some fs => Some (VL (first :: fs)) | None => None end.
+  Proof. reflexivity. Qed.
+  Lemma vn_struct txt a b c l more d :
+    visit_node (codes "struct") txt [a; b; c; VL (VL l :: more); d]
+    = match omapv as_field l with Some fs => Some (VT (HStruct (dict_of_pairs fs))) | None => None end.
+  Proof. reflexivity. Qed.
+  Lemma vn_tuple txt a b c first rest d :
+    visit_node (codes "tuple") txt [a; b; c; VL [VL [VT first; VL rest]]; d]
+    = match omapv (fun v => match second_of_pair v with Some x => as_ty x | None => None end) rest with
+      | Some ts => Some (VT (HTuple (first :: ts)))
+      | None => None
+      end.
+  Proof. reflexivity. Qed.
+
+  Ltac by_compute24 :=
+    eexists; split;
+    [ eapply runs_of_compute with (f0 := 24%nat); [vm_compute; reflexivity | discriminate]
+    | vm_compute; reflexivity ].
+
+  Lemma PT_struct_nil : PT (HStruct []).
+  Proof.
+    intros pre rest [-> | ->] Hrest;
+      (destruct rest as [|c r]; [by_compute24 | cbn in Hrest; destruct Hrest as [->|[->|[->| ->]]]; by_compute24]).
+  Qed.
+
+  Lemma PT_tuple_nil : PT (HTuple []).
+  Proof.
+    intros pre rest [-> | ->] Hrest;
+      (destruct rest as [|c r]; [by_compute24 | cbn in Hrest; destruct Hrest as [->|[->|[->| ->]]]; by_compute24]).
+  Qed.
+
+  Lemma PT_struct fs :
+    NoDup (map fst fs) -> Forall (fun f => name_ok (fst f) = true /\ PT (snd f)) fs -> PT (HStruct fs).
+  Proof.
+    intros Hnd Hfs. destruct fs as [|f fs]; [apply PT_struct_nil|].
+    intros pre rest Hpre Hrest. rewrite show_struct. cbn [map]. rewrite join_cons.
+    apply Forall_cons_iff in Hfs as [[Hn HT] Hfs].
+    destruct (rep_fields fs rest Hfs 0%nat) as (trs & Hrep & Hvis).
+    destruct (field_runs [] f (ftails fs (125 :: rest)) (or_introl eq_refl) Hn HT (ftails_follow fs rest)) as (trf & Hrunf & Hvisf).
+    cbn [app] in Hrunf.
+    pose (repnode := Node [] (List.concat (map tree_text trs)) trs).
+    pose (fchildren := [trf; repnode]).
+    pose (fieldsnode := Node (codes "fields") (List.concat (map tree_text fchildren)) fchildren).
+    assert (Hfields : RUN (R "fields") (fstr f ++ ftails fs (125 :: rest)) (Ok (fieldsnode, 125 :: rest))).
+    { eapply runs_ref; [reflexivity|]. apply runs_seq.
+      eapply seq_cons; [exact Hrunf|]. eapply seq_cons; [|apply seq_nil]. apply runs_star. exact Hrep. }
+    assert (Hvf : visit fieldsnode = Some (VL (map (fun g => VF (fst g) (snd g)) (f :: fs)))).
+    { subst fieldsnode fchildren. rewrite visit_Node. cbn [omapv]. rewrite Hvisf.
+      subst repnode. rewrite (visit_Node [] _ trs), Hvis, vn_generic, vn_fields.
+      rewrite second_fields. reflexivity. }
+    pose (kw := codes "struct").
+    set (Y := fstr f ++ ftails fs (125 :: rest)) in *.
+    pose (children := [Node [] kw [Node [] kw []]; Node (codes "_") [] []; Node [] (codes "{") [];
+                       Node [] (tree_text fieldsnode) [fieldsnode]; Node [] (codes "}") []]).
+    assert (Hrule : RUN (R "struct") (kw ++ 123 :: Y) (Ok (Node (codes "struct") (List.concat (map tree_text children)) children, rest))).
+    { eapply runs_ref; [reflexivity|]. apply runs_seq.
+      eapply seq_cons; [apply (runs_alt _ _ _ _ _ (Node [] kw [])); apply kw_alt; reflexivity|].
+      eapply seq_cons.
+      { apply (ws_runs [] (123 :: Y)); [left; reflexivity|reflexivity]. }
+      eapply seq_cons; [apply (lit_runs (codes "{") Y)|].
+      eapply seq_cons; [apply runs_alt; apply alt_here; exact Hfields|].
+      eapply seq_cons; [apply (lit_runs (codes "}") rest)|]. apply seq_nil. }
+    replace ((lit "struct{" ++ (fstr f ++ List.concat (map (fun y => lit ", " ++ y) (map fstr fs))) ++ lit "}") ++ rest)
+      with (kw ++ 123 :: Y).
+    2:{ subst Y kw. unfold ftails. rewrite map_map. cbn [lit codes app]. rewrite <- !app_assoc. reflexivity. }
+    eapply (type_wrap pre _ rest (firstn 14 type_alts) "struct" (skipn 15 type_alts));
+      [reflexivity|exact Hpre|reflexivity|apply ok_follow_nonspace; exact Hrest| |exact Hrule|].
+    - cbn [firstn type_alts]. subst kw. fails_compute.
+    - rewrite visit_Node. subst children. cbn [omapv]. rewrite visit_kw, visit_ws, !visit_leaf.
+      rewrite (visit_Node [] _ [fieldsnode]). cbn [omapv]. rewrite Hvf, vn_generic, vn_struct.
+      rewrite as_fields, dict_of_pairs_nodup by exact Hnd. reflexivity.
+  Qed.
+
+  (** ** tuple(T, ...) *)
+  Definition ttails (ts : list hty) (X : name) : name :=
+    List.concat (map (fun t => lit ", " ++ show t) ts) ++ X.
+
+  Lemma ttails_follow ts X' : ok_follow (ttails ts (41 :: X')).
+  Proof. destruct ts as [|t ts]; cbn; auto. Qed.
+
+  Lemma rep_types ts X' : Forall PT ts ->
+    forall c, exists trs,
+      rep_runs uni_word uni_space type_grammar (PSeq [L ","; R "type"]) 0 None c (ttails ts (41 :: X')) trs (41 :: X')
+      /\ omapv visit trs = Some (map (fun t => VL [VL []; VT t]) ts).
+  Proof.
+    induction 1 as [|t ts HT _ IH]; intro c.
+    - exists []. split; [|reflexivity]. apply rep_stop_fail; [discriminate|].
+      apply runs_seq_fail. apply seqf_here. apply runs_lit_fail. reflexivity.
+    - destruct (IH (S c)) as (trs & Hrep & Hvis).
+      destruct (HT [32] (ttails ts (41 :: X')) (or_intror eq_refl) (ttails_follow ts X')) as (trt & Hrunt & Hvist).
+      pose (children := [Node [] (codes ",") []; trt]).
+      exists (Node [] (List.concat (map tree_text children)) children :: trs). split.
+      + unfold ttails. cbn [map List.concat]. rewrite <- app_assoc. fold (ttails ts (41 :: X')).
+        replace (lit ", " ++ show t) with (44 :: [32] ++ show t) by reflexivity. cbn [app].
+        eapply rep_step; [discriminate| |discriminate|exact Hrep].
+        apply runs_seq.
+        eapply seq_cons; [apply (lit_runs (codes ",") (32 :: show t ++ ttails ts (41 :: X')))|].
+        eapply seq_cons; [|apply seq_nil]. exact Hrunt.
+      + cbn [omapv map]. rewrite Hvis. rewrite visit_Node. subst children. cbn [omapv]. rewrite visit_leaf, Hvist. reflexivity.
+  Qed.
+
+  Lemma second_types ts :
+    omapv (fun v => match second_of_pair v with Some x => as_ty x | None => None end)
+          (map (fun t : hty => VL [VL []; VT t]) ts) = Some ts.
+  Proof. induction ts as [|t ts IH]; [reflexivity|]. cbn [map omapv second_of_pair as_ty]. rewrite IH. reflexivity. Qed.
+
+  Lemma PT_tuple ts : Forall PT ts -> PT (HTuple ts).
+  Proof.
+    intros Hts. destruct ts as [|t ts]; [apply PT_tuple_nil|].
+    intros pre rest Hpre Hrest. rewrite show_tuple. cbn [map]. rewrite join_cons.
+    apply Forall_cons_iff in Hts as [HT Hts].
+    destruct (rep_types ts rest Hts 0%nat) as (trs & Hrep & Hvis).
+    destruct (HT [] (ttails ts (41 :: rest)) (or_introl eq_refl) (ttails_follow ts rest)) as (trt & Hrunt & Hvist).
+    cbn [app] in Hrunt.
+    pose (repnode := Node [] (List.concat (map tree_text trs)) trs).
+    pose (schildren := [trt; repnode]).
+    pose (seqnode := Node [] (List.concat (map tree_text schildren)) schildren).
+    set (Y := show t ++ ttails ts (41 :: rest)) in *.
+    assert (Hseq : RUN (PSeq [R "type"; star (PSeq [L ","; R "type"])]) Y (Ok (seqnode, 41 :: rest))).
+    { apply runs_seq. eapply seq_cons; [exact Hrunt|]. eapply seq_cons; [|apply seq_nil]. apply runs_star. exact Hrep. }
+    assert (Hvs : visit seqnode = Some (VL [VT t; VL (map (fun t0 : hty => VL [VL []; VT t0]) ts)])).
+    { subst seqnode schildren. rewrite visit_Node. cbn [omapv]. rewrite Hvist.
+      subst repnode. rewrite (visit_Node [] _ trs), Hvis, !vn_generic. reflexivity. }
+    pose (kw := codes "tuple").
+    pose (children := [Node [] kw [Node [] kw []]; Node (codes "_") [] []; Node [] (codes "(") [];
+                       Node [] (tree_text seqnode) [seqnode]; Node [] (codes ")") []]).
+    assert (Hrule : RUN (R "tuple") (kw ++ 40 :: Y) (Ok (Node (codes "tuple") (List.concat (map tree_text children)) children, rest))).
+    { eapply runs_ref; [reflexivity|]. apply runs_seq.
+      eapply seq_cons; [apply (runs_alt _ _ _ _ _ (Node [] kw [])); apply kw_alt; reflexivity|].
+      eapply seq_cons.
+      { apply (ws_runs [] (40 :: Y)); [left; reflexivity|reflexivity]. }
+      eapply seq_cons; [apply (lit_runs (codes "(") Y)|].
+      eapply seq_cons; [apply runs_alt; apply alt_here; exact Hseq|].
+      eapply seq_cons; [apply (lit_runs (codes ")") rest)|]. apply seq_nil. }
+    replace ((lit "tuple(" ++ (show t ++ List.concat (map (fun y => lit ", " ++ y) (map show ts))) ++ lit ")") ++ rest)
+      with (kw ++ 40 :: Y).
+    2:{ subst Y kw. unfold ttails. rewrite map_map. cbn [lit codes app]. rewrite <- !app_assoc. reflexivity. }
+    eapply (type_wrap pre _ rest (firstn 16 type_alts) "tuple" (skipn 17 type_alts));
+      [reflexivity|exact Hpre|reflexivity|apply ok_follow_nonspace; exact Hrest| |exact Hrule|].
+    - cbn [firstn type_alts]. subst kw. fails_compute.
+    - rewrite visit_Node. subst children. cbn [omapv]. rewrite visit_kw, visit_ws, !visit_leaf.
+      rewrite (visit_Node [] _ [seqnode]). cbn [omapv]. rewrite Hvs, vn_generic, vn_tuple, second_types. reflexivity.
+  Qed.
+
+  (** ** every name is a list of code points (below 2^32; Unicode ends at 0x10FFFF) *)
+  Fixpoint names_ok (t : hty) : bool :=
+    match t with
+    | HLocus rg => name_ok rg
+    | HInterval e | HArray e | HSet e | HStream e | HNDArray e _ => names_ok e
+    | HDict k v => names_ok k && names_ok v
+    | HStruct fs => forallb (fun f => name_ok (fst f) && names_ok (snd f)) fs
+    | HTuple ts => forallb names_ok ts
+    | _ => true
+    end.
+
+  Section HtyInd.
+    Variable P : hty -> Prop.
+    Hypothesis Hscalar : forall t, match t with
+                                   | HVoid | HInt32 | HInt64 | HFloat32 | HFloat64 | HBool | HStr | HCall | HRNGState
+                                   | HLocus _ => True | _ => False end -> P t.
+    Hypothesis Hinterval : forall e, P e -> P (HInterval e).
+    Hypothesis Harray : forall e, P e -> P (HArray e).
+    Hypothesis Hset : forall e, P e -> P (HSet e).
+    Hypothesis Hstream : forall e, P e -> P (HStream e).
+    Hypothesis Hnd : forall e n, P e -> P (HNDArray e n).
+    Hypothesis Hdict : forall k v, P k -> P v -> P (HDict k v).
+    Hypothesis Hstruct : forall fs, Forall (fun f => P (snd f)) fs -> P (HStruct fs).
+    Hypothesis Htuple : forall ts, Forall P ts -> P (HTuple ts).
+
+    Fixpoint hty_nested_ind (t : hty) : P t :=
+      match t with
+      | HInterval e => Hinterval e (hty_nested_ind e)
+      | HArray e => Harray e (hty_nested_ind e)
+      | HSet e => Hset e (hty_nested_ind e)
+      | HStream e => Hstream e (hty_nested_ind e)
+      | HNDArray e n => Hnd e n (hty_nested_ind e)
+      | HDict k v => Hdict k v (hty_nested_ind k) (hty_nested_ind v)
+      | HStruct fs =>
+          Hstruct fs ((fix go (l : list (name * hty)) : Forall (fun f => P (snd f)) l :=
+                         match l with
+                         | [] => Forall_nil _
+                         | f :: r => Forall_cons f (hty_nested_ind (snd f)) (go r)
+                         end) fs)
+      | HTuple ts =>
+          Htuple ts ((fix go (l : list hty) : Forall P l :=
+                        match l with [] => Forall_nil _ | x :: r => Forall_cons x (hty_nested_ind x) (go r) end) ts)
+      | HVoid => Hscalar HVoid I | HInt32 => Hscalar HInt32 I | HInt64 => Hscalar HInt64 I
+      | HFloat32 => Hscalar HFloat32 I | HFloat64 => Hscalar HFloat64 I | HBool => Hscalar HBool I
+      | HStr => Hscalar HStr I | HCall => Hscalar HCall I | HRNGState => Hscalar HRNGState I
+      | HLocus rg => Hscalar (HLocus rg) I
+      end.
+  End HtyInd.
+
+  Theorem parse_show_all : forall t, wf_hty t = true -> names_ok t = true -> PT t.
+  Proof.
+    induction t using hty_nested_ind; intros Hwf Hn.
+    - destruct t; try contradiction.
+      + apply PT_void. + apply PT_int32. + apply PT_int64. + apply PT_float32. + apply PT_float64.
+      + apply PT_bool. + apply PT_str. + apply PT_call. + apply PT_rng_state.
+      + apply PT_locus. exact Hn.
+    - apply PT_interval. apply IHt; assumption.
+    - apply PT_array. apply IHt; assumption.
+    - apply PT_set. apply IHt; assumption.
+    - apply PT_stream. apply IHt; assumption.
+    - apply PT_ndarray. apply IHt; assumption.
+    - cbn [wf_hty names_ok] in *. apply andb_true_iff in Hwf as [H1 H2]. apply andb_true_iff in Hn as [H3 H4].
+      apply PT_dict; [apply IHt1|apply IHt2]; assumption.
+    - cbn [wf_hty names_ok] in *. apply andb_true_iff in Hwf as [Hnd Hwfs].
+      apply PT_struct; [apply names_nodup_spec; exact Hnd|].
+      rewrite forallb_forall in Hwfs, Hn. rewrite Forall_forall in H |- *. intros f Hf.
+      specialize (Hn f Hf). apply andb_true_iff in Hn as [Hn1 Hn2].
+      split; [exact Hn1|apply H; [exact Hf|apply Hwfs; exact Hf|exact Hn2]].
+    - cbn [wf_hty names_ok] in *. apply PT_tuple.
+      rewrite forallb_forall in Hwf, Hn. rewrite Forall_forall in H |- *. intros x Hx.
+      apply H; [exact Hx|apply Hwf; exact Hx|apply Hn; exact Hx].
+  Qed.
+
+  (** [dtype(str(t)) == t] for all sufficiently large fuel *)
+  Theorem dtype_show : forall t, wf_hty t = true -> names_ok t = true ->
+    exists f0, forall f, (f0 <= f)%nat -> dtype uni_word uni_space f (show t) = Ok t.
+  Proof.
+    intros t Hwf Hn.
+    destruct (parse_show_all t Hwf Hn [] [] (or_introl eq_refl) I) as (tr & [f0 Hrun] & Hvis).
+    exists f0. intros f Hf. unfold dtype, dtype_with, parse_tree.
+    cbn [app] in Hrun. rewrite app_nil_r in Hrun. fold (R "type"). rewrite (Hrun f Hf), Hvis. reflexivity.
+  Qed.
 End ParseTypes.
